@@ -134,14 +134,23 @@ def oracle_input(ctx, rng, n):
                           % (kind, ex), case=case, kind=kind)
             shutil.rmtree(d, ignore_errors=True)
             continue
-        o1, o2 = outputs_of(r1), outputs_of(r2)
+        try:
+            o1, o2 = outputs_of(r1), outputs_of(r2)
+        except SystemExit:
+            ctx.count("sweep_stopped_by_dassh:" + kind)      # e.g. the pin-temperature iteration limit at a generated power level
+            shutil.rmtree(d, ignore_errors=True)
+            continue
         if o1 != o2:
             ctx.violation("c16-second-run-differs:" + kind, "the second construction from the same input gives different temperatures",
                           case=case, kind=kind)
         # fresh execution
         inp3 = dassh.DASSH_Input(path)
         r3 = dassh.Reactor(inp3, path=d, write_output=False)
-        if outputs_of(r3) != o1:
+        try:
+            o3 = outputs_of(r3)
+        except SystemExit:
+            o3 = None
+        if o3 != o1:
             ctx.violation("c16-not-deterministic", "two executions of one input give different temperatures", case=case)
         if ci < 3:
             ctx.sample(dict(kind=kind, mutated=changed[:3]))
